@@ -53,7 +53,7 @@ def main(tier, seed):
     return history.check(
         "C09", tier, seed, run=run, machine="SheetDOM", mc_cfg="SheetDOM_%s.cfg" % tier, gen_cfg="SheetDOM_gen_%s.cfg" % tier,
         trace_module="SheetDOMTrace", adapter="adapters.sheetdom", sig=sig, corrupt=corrupt,
-        tour_cap=25000 if q else 150000, n_walks=300 if q else 3000, walk_len=25 if q else 50, nontrivial=nontrivial,
+        tour_cap=25000 if q else 150000, n_walks=300 if q else 1000, walk_len=25 if q else 40, nontrivial=nontrivial,
         variants=variants,
         rule="transition tour over the algorithm-layer machine (rule lists <=2 quick / <=3 thorough in the generation config) x every "
              "enabled edit: insertRule at every index incl. one past the end, ordered add, deleteRule, cssText and encoding "
